@@ -32,8 +32,10 @@ func vDER(tag byte, content []byte) []byte {
 		h = []byte{tag, byte(n)}
 	case n <= 0xff:
 		h = []byte{tag, 0x81, byte(n)}
-	default:
+	case n <= 0xffff:
 		h = []byte{tag, 0x82, byte(n >> 8), byte(n)}
+	default:
+		h = []byte{tag, 0x83, byte(n >> 16), byte(n >> 8), byte(n)}
 	}
 	return append(h, content...)
 }
@@ -79,6 +81,8 @@ func vRefDetachedSignedData(signedBuf, certRaw, issuer, serial []byte, now time.
 
 // VC06_SignedUpdateLayout: the produced update is timestamp || WIN_CERTIFICATE_UEFI_GUID header ||
 // bare detached SignedData over name||GUID||attributes||timestamp||payload || payload.
+var vsymC06RawLen = 0 // > 0: length of the signing certificate (model); natively at least as long
+
 func VC06_SignedUpdateLayout() {
 	name := vsym.BytesN("name", vsymC06Name)
 	for _, c := range name {
@@ -91,6 +95,9 @@ func VC06_SignedUpdateLayout() {
 	signer := vsym.Signer("k1")
 	serial := vsym.BytesN("serial", 2)
 	vsym.Assume(serial[0] != 0)
+	if vsymC06RawLen > 0 {
+		vsym.CertRawLen(vsymC06RawLen) // a long certificate: the SignedData then exceeds 64 KiB
+	}
 	cert := vsym.Cert(signer, serial)
 	raw, issuer := cert.Raw, cert.RawIssuer
 	v := efivar.Efivar{Name: string(name), GUID: &guid, Attributes: attributes.Attributes(attrs)}
